@@ -1093,6 +1093,14 @@ func (se *SpecEnv) callSpec(c *ast.CallExpr) Value {
 		isNil = func(x Value) *Term {
 			switch a := x.(type) {
 			case *PtrV:
+				if a.Obj != nil {
+					// the address of a cell that holds a pointer, slice, interface or map (x.f): the question is
+					// about what the cell holds, not about its address (which is never nil)
+					switch se.fr.v.typeAtPath(a.Obj.Type, a.Path).Underlying().(type) {
+					case *types.Pointer, *types.Slice, *types.Interface, *types.Map:
+						return isNil(se.rvalue(se.deref(a)))
+					}
+				}
 				return F.Bool(a.Obj == nil)
 			case *SliceV:
 				return F.Bool(a.Obj == nil)
